@@ -256,8 +256,31 @@ def check_cleaning(ctx, case):
         ctx.fail("merge_ballots: wrong ranking or weight", case, {})
 
 
+def check_realistic(ctx):
+    """README pipeline: remove_noncands on the Minneapolis 2013 cast vote record"""
+    from votekit.cvr_loaders import load_csv
+    from votekit.cleaning import remove_noncands
+    from .. import realistic as R
+
+    rows = R.mn_rows()
+    case = {"kind": "realistic", "file": "votekit/data/mn_2013_cast_vote_record.csv", "noncands": R.NONCANDS}
+    ctx.case(case, nontrivial=True)
+    o = observe(lambda: remove_noncands(load_csv(R.mn_path()), R.NONCANDS))
+    ctx.count("realistic_rows_cleaned", len(rows))
+    if not o.ok:
+        ctx.fail(f"remove_noncands raised {o.etype} on the Minneapolis cast vote record", case, {"msg": str(o.exc)[:200]})
+        return
+    got, exp = R.profile_ms(o.value), R.expected_cleaned(rows)
+    if got != exp:
+        bad = [k for k in set(got) | set(exp) if got.get(k) != exp.get(k)][:3]
+        ctx.fail("remove_noncands on the Minneapolis record: weight per resulting ranking differs from the summed weight of the rows "
+                 "mapping to it", case, {"examples": [[str(k), str(got.get(k)), str(exp.get(k))] for k in bad]})
+
+
 def run(ctx):
     rnd = ctx.rnd
+    if ctx.shard == 0:
+        ctx.guard("realistic", check_realistic, ctx)
     for i in range(ctx.n(2200, 40000)):
         if ctx.expired():
             break
@@ -289,4 +312,6 @@ def run(ctx):
 
 
 def replay(ctx, case):
+    if case["kind"] == "realistic":
+        return check_realistic(ctx)
     {"remove": check_remove, "add_missing": check_add_missing, "expand": check_expand, "cleaning": check_cleaning}[case["kind"]](ctx, case)
